@@ -238,4 +238,51 @@ fn build_piped(builder: &BuilderT, this: &BuildSelfT) -> (r: bool)
     piped
 //@end
 
+// =====================================================================================================
+// C12: storage writer (disk-only insert): skipped when not admitted and not forced; otherwise inserted as a PHANTOM
+// (not retained in memory, handed to the disk tier when the handle drops)
+// =====================================================================================================
+impl HybridCacheProperties {
+    /// HybridCacheProperties::with_phantom (`mut self` setter, not extractable): sets only the phantom flag
+    #[verifier::external_body]
+    pub fn with_phantom(self, phantom: bool) -> (r: Self)
+        ensures r.phantom == phantom, r.location == self.location, r.hint == self.hint, r.age == self.age,
+    { unimplemented!() }
+}
+#[derive(Clone, Copy)]
+pub enum StorageFilterResult { Admit, Reject, Throttled(u64) }
+impl StorageFilterResult { pub fn is_admitted(&self) -> (r: bool) ensures r == (*self is Admit) { matches!(self, StorageFilterResult::Admit) } }
+pub struct HistT { pub h: u8 }
+impl HistT { #[verifier::external_body] pub fn record(&self, v: u64) { } }
+pub struct CtrT { pub c: u8 }
+impl CtrT { #[verifier::external_body] pub fn increase(&self, v: u64) { } }
+pub struct WMetricsT { pub hybrid_insert: CtrT, pub hybrid_insert_duration: HistT }
+pub struct WHybridT { pub inserted: Ghost<Seq<(u64, HybridCacheProperties)>>, pub m: WMetricsT }
+impl WHybridT {
+    #[verifier::external_body]
+    pub fn insert_with_properties(&mut self, key: u64, value: u64, properties: HybridCacheProperties) -> (r: EntryT)
+        ensures final(self).inserted@ == old(self).inserted@.push((key, properties)), r.props == properties,
+    { unimplemented!() }
+    pub fn metrics(&self) -> (r: &WMetricsT) { &self.m }
+}
+pub struct ValT { pub v: u64 }
+pub struct WriterT { pub hybrid: WHybridT, pub key: u64, pub hash: u64, pub force: bool, pub filter_result: Option<StorageFilterResult>, pub admit: Ghost<bool> }
+impl WriterT {
+    /// may_pick: the cached or fresh verdict of the admission filter for this key
+    #[verifier::external_body]
+    fn may_pick(&mut self, estimated_size: usize) -> (r: StorageFilterResult)
+        ensures (r is Admit) == old(self).admit@, final(self).hybrid == old(self).hybrid, final(self).key == old(self).key, final(self).force == old(self).force, final(self).admit == old(self).admit,
+    { unimplemented!() }
+    #[verifier::external_body] fn verif_est(&self, value: &u64) -> (r: usize) { unimplemented!() }
+
+//@region foyer/src/hybrid/writer.rs :: impl~^impl<K, V, S> HybridCacheStorageWriter<K, V, S> where/fn insert_inner name=writer_insert whole=1 rules=drop-metrics sub=@self\.key\.estimated_size\(\) \+ value\.estimated_size\(\)@self.verif_est(&value)@ sub=@let now = Instant::now\(\);@@
+//@head
+    fn writer_insert(&mut self, value: u64, properties: HybridCacheProperties) -> (r: Option<EntryT>)
+        ensures
+            !old(self).force && !old(self).admit@ ==> r is None && final(self).hybrid.inserted@ == old(self).hybrid.inserted@, // @label rejected_writer_insert_writes_nothing
+            old(self).force || old(self).admit@ ==> r is Some
+                && final(self).hybrid.inserted@ == old(self).hybrid.inserted@.push((old(self).key, HybridCacheProperties { phantom: true, hint: properties.hint, location: properties.location, age: properties.age })), // @label disk_only_insert_is_a_phantom_with_the_given_advice
+//@end
+}
+
 } // verus!
